@@ -390,8 +390,8 @@ func concStressChild(args []string) int {
 				switch rng.Intn(11) {
 				case 9: // decodes that fail, several goroutines at a time through the one shared codec: the error a goroutine
 					// holds is the error of its own input, also after others have failed
-					if len(bad) == 0 {
-						continue
+					if len(bad) == 0 || k >= 60 {
+						continue // (bounded per goroutine: every call adds section events, and the exclusion check is quadratic in them)
 					}
 					seen := map[[2]string]int{}
 					for it := 0; it < 12; it++ {
@@ -417,6 +417,9 @@ func concStressChild(args []string) int {
 					}
 					results[g] = append(results[g], stressRecord{Op: "conc_err", G: g, N: agree, S: []int{0}, Bytes: []int{0}})
 				case 10: // schema generation for types that share structs: the same schema as when nobody else generates
+					if k >= 60 {
+						continue
+					}
 					seen := map[[2]string]int{}
 					for it := 0; it < 2; it++ {
 						ti := rng.Intn(len(genTypes))
